@@ -143,6 +143,7 @@ theorem chain_pass_id (n : Nat) (o : Outcome α) : chain (List.replicate n Mw.pa
 def addedOuts : List (Mw α) → List α
   | [] => []
   | .pass :: rest => addedOuts rest
+  | .rebuild :: rest => addedOuts rest
   | .addOut x :: rest => addedOuts rest ++ [x]
 
 /-- what a chain of middlewares returns: the handler's own settlement, error flag and outputs, followed by the
